@@ -1348,8 +1348,8 @@ func (s *State) convert(cv *ssa.Convert) Value {
 		s.setComp(cn, cs, fmt.Sprintf("(store %s %s %s)", s.comp(cn, cs), base, A))
 		return fmt.Sprintf("(mk-slice %s 0 (gs.len %s) (gs.len %s))", base, x, x)
 	case fs == "Int" && ts == "Str":
-		s.abstracted("string(rune) conversion")
-		return s.freshOf("runestr", to)
+		// string(r): the UTF-8 encoding of the rune, an abstract string of 1..4 bytes determined by the rune
+		return fmt.Sprintf("(gs.ofrune %s)", x)
 	case fs == ts:
 		return x
 	}
@@ -1799,8 +1799,29 @@ func (s *State) havocAllHeap(reason string) {
 			row := s.name("pv_row", "(Array Int "+s.C.sortOf(st.Elem())+")", fmt.Sprintf("(select %s %s)", s.comp(cn, cs), base))
 			rows = append(rows, keptRow{cn, cs, base, row})
 		}
+		for _, a := range s.C.privateMapVars(top.Fn) {
+			l, ok := top.Vals[a].(*Loc)
+			if !ok || l.Kind != LocLocal {
+				continue
+			}
+			v, live := s.Cells[l.Cell]
+			if !live {
+				continue
+			}
+			mt, ok := s.C.under(l.Cell.ty).(*types.Map)
+			if !ok {
+				continue
+			}
+			dn, vn, ln, ds, vs, ls := s.C.mapComps(mt)
+			base := s.name("pv_map", "Int", v)
+			for _, p := range [][2]string{{dn, ds}, {vn, vs}, {ln, ls}} {
+				_, rs := arraySorts(p[1])
+				row := s.name("pv_mrow", rs, fmt.Sprintf("(select %s %s)", s.comp(p[0], p[1]), base))
+				rows = append(rows, keptRow{p[0], p[1], base, row})
+			}
+		}
 		if len(rows) > 0 {
-			s.C.assume("A-PRIVATE: backing arrays of local slices that never leave " + s.C.Key + " are not written by called code")
+			s.C.assume("A-PRIVATE: backing arrays of local slices and local maps that never leave " + s.C.Key + " are not written by called code")
 		}
 	}
 	// A-FINAL: a field that no code writes once its object exists keeps its value, for every object that exists now
@@ -2367,6 +2388,130 @@ func (c *Ctx) sliceVarPrivate(a *ssa.Alloc) bool {
 		case *ssa.UnOp:
 			if r.Op != token.MUL || !derivedOK(r, 0) {
 				return false
+			}
+		case *ssa.DebugRef:
+		default:
+			return false
+		}
+	}
+	return true
+}
+
+// privateMapVars: local variables of map type that only ever hold a map made in this function and whose value is only
+// used for lookups, updates, deletes, len, range and as a returned value.
+func (c *Ctx) privateMapVars(fn *ssa.Function) []*ssa.Alloc {
+	if c.privMaps == nil {
+		c.privMaps = map[*ssa.Function][]*ssa.Alloc{}
+	}
+	if v, ok := c.privMaps[fn]; ok {
+		return v
+	}
+	var out []*ssa.Alloc
+	for _, b := range fn.Blocks {
+		for _, ins := range b.Instrs {
+			a, ok := ins.(*ssa.Alloc)
+			if !ok || a.Heap || a.Referrers() == nil {
+				continue
+			}
+			pt, ok := a.Type().Underlying().(*types.Pointer)
+			if !ok {
+				continue
+			}
+			if _, ok := c.under(pt.Elem()).(*types.Map); !ok {
+				continue
+			}
+			priv := true
+			useOK := func(v ssa.Value) bool {
+				refs := v.Referrers()
+				if refs == nil {
+					return false
+				}
+				for _, r := range *refs {
+					switch r := r.(type) {
+					case *ssa.MapUpdate:
+						if r.Map != v {
+							return false
+						}
+					case *ssa.Lookup:
+						if r.X != v {
+							return false
+						}
+					case *ssa.Range, *ssa.Return, *ssa.DebugRef:
+					case *ssa.Store:
+						if r.Val == v && r.Addr != ssa.Value(a) && !resultCell(r.Addr) {
+							return false
+						}
+					case *ssa.Call:
+						bi, ok := r.Call.Value.(*ssa.Builtin)
+						if !ok || (bi.Name() != "len" && bi.Name() != "delete" && bi.Name() != "clear") {
+							return false
+						}
+					case *ssa.BinOp:
+					default:
+						return false
+					}
+				}
+				return true
+			}
+			for _, r := range *a.Referrers() {
+				switch r := r.(type) {
+				case *ssa.Store:
+					if r.Val == ssa.Value(a) {
+						priv = false
+						break
+					}
+					switch x := r.Val.(type) {
+					case *ssa.MakeMap:
+						if !useOK(x) {
+							priv = false
+						}
+					case *ssa.Const:
+						if !x.IsNil() {
+							priv = false
+						}
+					default:
+						priv = false
+					}
+				case *ssa.UnOp:
+					if r.Op != token.MUL || !useOK(r) {
+						priv = false
+					}
+				case *ssa.DebugRef:
+				default:
+					priv = false
+				}
+			}
+			if priv {
+				out = append(out, a)
+			}
+		}
+	}
+	c.privMaps[fn] = out
+	return out
+}
+
+// resultCell: a local cell whose value is only ever loaded to be returned (the cell of a result in a function with defers).
+func resultCell(addr ssa.Value) bool {
+	a, ok := addr.(*ssa.Alloc)
+	if !ok || a.Heap || a.Referrers() == nil {
+		return false
+	}
+	for _, r := range *a.Referrers() {
+		switch r := r.(type) {
+		case *ssa.Store:
+			if r.Val == ssa.Value(a) {
+				return false
+			}
+		case *ssa.UnOp:
+			if r.Referrers() == nil {
+				return false
+			}
+			for _, q := range *r.Referrers() {
+				switch q.(type) {
+				case *ssa.Return, *ssa.DebugRef:
+				default:
+					return false
+				}
 			}
 		case *ssa.DebugRef:
 		default:
